@@ -489,8 +489,14 @@ def run(ctx):
         "float64 operators on CPU; default dtype float32 (library default) during the run"]
 
 
-def run_shards_limited(ctx, shards, width=6):
-    """common.run_shards in slices of `width` shards (at most `width` coqc at a time)"""
+def run_shards_limited(ctx, shards, width=None):
+    """common.run_shards in slices of `width` shards (at most `width` coqc at a time; VERIF_C06_WIDTH overrides the
+    default of 6 — only the wall time depends on it)"""
+    if width is None:
+        try:
+            width = max(1, int(os.environ.get("VERIF_C06_WIDTH", "6")))
+        except ValueError:
+            width = 6
     out = {}
     for i in range(0, len(shards), width):
         out.update(common.run_shards(ctx, shards[i:i + width], timeout=1200))
